@@ -35,7 +35,8 @@ ObsOK(o, ou, tags) ==
        /\ Chk("raised", o.raised, "", tags)
        /\ Chk("idx.session", SetOf(o.sess), E.sess, tags)
        /\ Chk("idx.region.local", SetOf(o.regl), E.reg, tags)
-       /\ Chk("idx.region.full", SetOf(o.regf), E.reg, tags)
+       \* a region's lookup by full ID is judged while the region is tracked
+       /\ Chk("idx.region.full", {x \in SetOf(o.regf) : x[1] \in tracked'}, E.reg, tags)
        /\ Chk("links", {<<x[1], x[2], SetOf(x[3])>> : x \in SetOf(o.links)}, E.links, tags)
        /\ Chk("childids", o.childids, "", tags)
        /\ Chk("events.killed", SetOf(o.killed), ou.killed, tags)
